@@ -117,3 +117,32 @@ Definition code (c : case) : N :=
       (if k then 0 else 1) + (if o then 0 else 2)
   end.
 Definition codes (cs : list case) : list N := map code cs.
+
+(* C03, the partition clause on the accessor itself (geometries too large to extract: multi-gigabyte totals, piece lengths
+   that are no power of two or exceed 32 bits): in a consistent torrent -- as many piece hashes as ceil(total / piece
+   length) -- every piece has the piece length except the last, which has what remains; read from the dictionary *)
+Definition partition_ok (d : dict) (o : obs) : bool :=
+  match spec_files d with
+  | Some (_, pl, fs) =>
+      let total := fold_right (fun f acc => snd f + acc) 0 fs in
+      let n := o_n o in
+      if negb ((0 <? total) && (n =? (total + pl - 1) / pl)) then true else      (* inconsistent: nothing claimed *)
+      forallb (fun ir => match snd ir with
+                         | Ok l => if fst ir + 1 <? n then l =? pl else l =? total - (n - 1) * pl
+                         | _ => false
+                         end) (o_plen o)
+      && match o_total o with Ok t => t =? total | _ => false end
+  | None => true
+  end.
+Definition code03g (c : case) : N :=
+  match c with
+  | CMeta ovf doc impl =>
+      (if k_ok ovf doc impl then 0 else 1) +
+      (match impl, decode doc with
+       | Ok ob, Ok vs => if existsb (fun v => match v with BDict d => faithful_dict d ob && partition_ok d ob | _ => false end) vs then 0 else 2
+       | Panic, _ => 2
+       | _, _ => 0
+       end)
+  | _ => 0
+  end.
+Definition codes03g (cs : list case) : list N := map code03g cs.
